@@ -25,7 +25,8 @@ RULE = ("real Oomd::Log (get_for_unittest, async) + real LogStream over a gated 
         "producers parked at barriers so that backlog marks are exact; shutdown after all scripts or cut at a "
         "barrier, with the sink open, slow or still blocked.  families: burst, slow, blocked (fill the queue against "
         "a closed gate, one or two rounds, with an in-flight batch), cut (shutdown at a random barrier), silence, "
-        "small-total (blocked, everything fits: nothing may be dropped).  non-trivial = >= 2 producers or a blocked "
+        "small-total (blocked, everything fits: nothing may be dropped), exact (blocked, total exactly 1 MiB, or 1 MiB + "
+        "1 .. 5000 bytes).  non-trivial = >= 2 producers or a blocked "
         "sink, at least one line delivered, and at least one of: a drop was reported, a mark saw unwritten bytes, "
         "a silenced statement, a kmsg record")
 ASSUMPTIONS = ["no producer calls into the logger concurrently with or after Log::~Log (producers are parked or "
@@ -178,6 +179,35 @@ def gen_blocked(rng, small_total=False):
             "sink": {"us": rng.choice([0, 0, 0, 50])}, "script": script}
 
 
+def gen_exact(rng):
+    """blocked sink, everything logged adds up to exactly the cap (nothing may be dropped) or to the cap plus a
+    little (something must be)"""
+    np_ = rng.randint(1, 4)
+    over = rng.choice([0, 0, 1, rng.randint(2, 5000)])
+    left = MAXSIZE + over
+    sizes = []
+    while left > 0:
+        n = min(left, size(rng, rng.choice(["medium", "large", "large", "small", "tiny"])))
+        if 0 < left - n < 1:
+            n = left
+        sizes.append(n)
+        left -= n
+    rng.shuffle(sizes)
+    first = sizes.pop()
+    prods = [[] for _ in range(np_)]
+    prods[0] += [{"k": "bar", "i": 0}, {"k": "raw", "n": first}]
+    for p in range(np_):
+        prods[p].append({"k": "bar", "i": 1})
+    for n in sizes:
+        prods[rng.randrange(np_)].append({"k": "raw", "n": n} if n < 20 or rng.random() < 0.3 else {"k": "log", "n": n})
+    for p in range(np_):
+        prods[p].append({"k": "bar", "i": 2})
+    script = [{"k": "close"}, {"k": "release", "i": 0}, {"k": "arrive", "i": 1}, {"k": "blocked", "ms": 400},
+              {"k": "release", "i": 1}, {"k": "arrive", "i": 2}, {"k": "mark"},
+              {"k": "shutdown", "open_after_us": rng.choice([0, 1000])}]
+    return {"family": "exact" if over == 0 else "exact+%d" % min(over, 2), "producers": prods, "sink": {"us": 0}, "script": script}
+
+
 def gen_cut(rng):
     """producers work in phases separated by barriers; shutdown arrives at a random barrier"""
     np_ = rng.randint(1, 8)
@@ -209,10 +239,17 @@ def gen_cut(rng):
 
 
 def gen(rng, tier):
+    for sc in _gen(rng, tier):
+        # schedule widening inside the critical sections; has an effect only when the tree carries the trace hooks
+        sc["jitter"] = rng.choice([0, 0, 2, 5, 20])
+        yield sc
+
+
+def _gen(rng, tier):
     n = {"quick": 3, "thorough": 24, "search": 4}[tier]
-    plan = [("burst", 14), ("burstbig", 6), ("slow", 6), ("silence", 10), ("blocked", 22), ("small", 8), ("cut", 18)]
+    plan = [("burst", 14), ("burstbig", 6), ("slow", 6), ("silence", 10), ("blocked", 22), ("small", 8), ("exact", 6), ("cut", 18)]
     if tier == "search":
-        plan = [("blocked", 40), ("cut", 25), ("burstbig", 10), ("silence", 10), ("small", 10)]
+        plan = [("blocked", 40), ("cut", 25), ("burstbig", 10), ("silence", 10), ("small", 10), ("exact", 20)]
     for fam, k in plan:
         for _ in range(k * n):
             if fam == "burst":
@@ -227,6 +264,8 @@ def gen(rng, tier):
                 yield gen_blocked(rng)
             elif fam == "small":
                 yield gen_blocked(rng, small_total=True)
+            elif fam == "exact":
+                yield gen_exact(rng)
             else:
                 yield gen_cut(rng)
 
